@@ -50,8 +50,8 @@ MIN_COUNTERS = {
               'lift_value_agreements': 6000, 'law_samples': 20000,
               'max_method_entry_points': 100, 'max_builtin_entry_points': 100,
               'meta_checks': 100},
-    'thorough': {'lift_method_evaluations': 1000000,
-                 'lift_builtin_evaluations': 1000000,
+    'thorough': {'lift_method_evaluations': 600000,
+                 'lift_builtin_evaluations': 600000,
                  'lift_value_agreements': 800000, 'law_samples': 3000000,
                  'max_method_entry_points': 100, 'max_builtin_entry_points': 100,
                  'meta_checks': 100},
@@ -62,9 +62,9 @@ def plan(tier, seed):
     q = tier == 'quick'
     secs = 45 if q else 600
     shards = []
-    for kind, total, parts in (('lift_m', 24000 if q else 2_500_000, 5 if q else 6),
-                               ('lift_b', 24000 if q else 2_500_000, 5 if q else 6),
-                               ('laws', 120000 if q else 6_000_000, 4 if q else 3)):
+    for kind, total, parts in (('lift_m', 24000 if q else 1_500_000, 5 if q else 6),
+                               ('lift_b', 24000 if q else 1_500_000, 5 if q else 6),
+                               ('laws', 120000 if q else 6_000_000, 4)):
         for p, (f, n) in enumerate(split(total, parts)):
             shards.append({'name': f'{kind}{p}', 'mode': 'nrt', 'kind': kind,
                            'first_case': f, 'n': n, 'secs': secs,
@@ -136,14 +136,6 @@ def vrepr(nf):
     return repr(nf)[:300]
 
 
-def lift_key(entry_kind, fam, hook, others, overridden=None):
-    o = '+'.join(sorted(set(others))) if others else 'none'
-    k = f'C15/lifting/{fam}/{entry_kind}-{hook}/with-{o}'
-    if overridden:
-        k += f'/{overridden}'
-    return k
-
-
 def overridden_by(obj, name):
     """Name of the class that overrides an operator method of AbstractObject
     (e.g. Operand.__eq__), else None."""
@@ -156,202 +148,220 @@ def overridden_by(obj, name):
     return None
 
 
-# ---------------------------------------------------------------------------
+OPERAND_EQ_KEY = 'C15/lifting/operand/eq-delegates-to-value-dunder-eq'
 
-def run_lift_methods(spec, acc):
-    from vf import c15_kinds as ck, c15_ops as ops
-    m = ck.mods()
-    entries = ops.method_entries()
-    bents = ops.builtin_entries()
-    acc.counters['max_method_entry_points'] = len(entries)
-    for e in entries:
-        e['random'] = ops.random_selector(e['selector'], bents)
-    ne = len(entries)
-    for i in iter_cases(spec):
-        rng = case_rng(spec['seed'], 'C15', 'lift_m', i)
-        e = entries[i % ne]
-        name, hook, sel = e['name'], e['hook'], e['selector']
-        acc.count('m_' + name)
-        x0 = rng.choice([-2, 0, 1, 3, 0.5, 2.5])
-        ints = rng.random() < 0.5
+
+class LiftCase:
+    """One application of an operator entry point to fresh operands; can be
+    rebuilt identically (same rng state) with some operands replaced by their
+    plain values - used to classify a mismatch by mechanism."""
+
+    def __init__(self, src, e, i, rng, x0, ints):
+        self.src, self.e, self.i, self.rng = src, e, i, rng
+        self.x0, self.ints = x0, ints
+        self.expand = False
+        self.number_left = False
+
+    # -- choice of kinds (consumes rng once) ---------------------------------
+    def choose(self, cycle):
+        from vf import c15_kinds as ck
+        e, rng = self.e, self.rng
+        self.hook = e['hook'] if self.src == 'method' else \
+            {'unop': 'unop', 'binop': 'binop', 'narop': 'narop'}[e['arity']]
+        self.nsup = e['nreq'] + (rng.randint(0, e['nopt']) if e['nopt'] else 0)
+        if self.src == 'builtin' and self.hook == 'binop' and self.nsup >= 1 \
+                and rng.random() < 0.35 and not e['random']:
+            self.number_left = True
         if e['random']:
-            akind = rng.choice(RANDOM_RECEIVERS)
+            self.akind = rng.choice(RANDOM_RECEIVERS)
+        elif self.number_left:
+            self.akind = rng.choice(ck.NUMBER_KINDS + ['list'])
         else:
-            akind = ck.ABSTRACT_KINDS[(i // ne) % len(ck.ABSTRACT_KINDS)] \
+            self.akind = ck.ABSTRACT_KINDS[cycle % len(ck.ABSTRACT_KINDS)] \
                 if rng.random() < 0.7 else rng.choice(ck.ABSTRACT_KINDS)
-        fam = ck.family(akind)
-        a, nfa = ck.make(akind, rng, x0, ints)
-        nsup = e['nreq'] + (rng.randint(0, e['nopt']) if e['nopt'] else 0)
-        okinds, objs, nfs = [], [], []
-        expand = False
-        for j in range(nsup):
+        fam = ck.family(self.akind)
+        self.okinds = []
+        for j in range(self.nsup):
             if e['random']:
                 k = rng.choice(ck.NUMBER_KINDS)
-            elif hook == 'rbinop':
+            elif self.number_left:
+                k = rng.choice(ck.CHAN_KINDS) if self.akind == 'list' else \
+                    rng.choice(ck.ABSTRACT_KINDS)
+            elif self.hook == 'rbinop':
                 k = rng.choice(ck.NUMBER_KINDS)     # plain number on the left
-            elif hook == 'binop':
-                k = rng.choice(other_kinds_for(akind, rng))
+            elif self.hook == 'binop':
+                k = rng.choice(other_kinds_for(self.akind, rng))
             else:
-                k = rng.choice(narop_arg_kinds(akind))
+                k = rng.choice(narop_arg_kinds(self.akind))
                 if fam == 'channels' and rng.random() < 0.12:
                     k = rng.choice(['chan', 'list'])
-                    expand = True
-            o, nf = ck.make(k, rng, x0, ints)
-            okinds.append(k); objs.append(o); nfs.append(nf)
-        # selector arguments after the receiver, from the probe's template
-        sargs = []
-        for kind_, v in e['template']:
-            if kind_ == 'const':
-                sargs.append(v)
-            elif v < nsup:
-                sargs.append(nfs[v])
-            else:
-                sargs.append(e['opt_defaults'][v - e['nreq']])
-        seedv = rng.randrange(10 ** 9)
-        # -- reference ---------------------------------------------------
-        m['main']._m_rgen.seed(seedv)
-        if hook == 'unop':
+                    self.expand = True
+            self.okinds.append(k)
+        self.fam = ck.family(self.okinds[0]) if self.number_left else fam
+        self.state = rng.getstate()
+        self.seedv = rng.randrange(10 ** 9)
+
+    # -- operands ------------------------------------------------------------------
+    def build(self, plain=()):
+        from vf import c15_kinds as ck
+        self.rng.setstate(self.state)
+        a, nfa = ck.make(self.akind, self.rng, self.x0, self.ints)
+        objs, nfs = [], []
+        for j, k in enumerate(self.okinds):
+            o, nf = ck.make(k, self.rng, self.x0, self.ints)
+            if j in plain:
+                o = nf
+            objs.append(o); nfs.append(nf)
+        return a, nfa, objs, nfs
+
+    # -- reference ------------------------------------------------------------------
+    def expected(self, nfa, nfs):
+        from vf import c15_kinds as ck
+        e = self.e
+        ck.mods()['main']._m_rgen.seed(self.seedv)
+        if self.src == 'method':
+            sel = e['selector']
+            sargs = []
+            for kind_, v in e['template']:
+                if kind_ == 'const':
+                    sargs.append(v)
+                elif v < self.nsup:
+                    sargs.append(nfs[v])
+                else:
+                    sargs.append(e['opt_defaults'][v - e['nreq']])
+        else:
+            sel = e['func']
+            sargs = list(nfs) + list(e['opt_defaults'][self.nsup - e['nreq']:])
+        if self.hook == 'unop':
             exp = ck.ap1(sel, nfa)
-        elif hook == 'binop':
+        elif self.hook == 'binop':
             exp = ck.ap2(sel, nfa, sargs[0])
-        elif hook == 'rbinop':
+        elif self.hook == 'rbinop':
             exp = ck.ap2(sel, sargs[0], nfa)
         else:
-            exp = ck.apn(sel, nfa, sargs, expand_lists=expand)
-        exp = ck.collapse(exp)
-        # -- the library ---------------------------------------------------
-        m['main']._m_rgen.seed(seedv)
+            exp = ck.apn(sel, nfa, sargs, expand_lists=self.expand)
+        return ck.collapse(exp)
+
+    # -- the library ------------------------------------------------------------------
+    def library(self, a, objs, via_wrapper_hook=False):
+        from vf import c15_kinds as ck, c15_ops as ops
+        e = self.e
+        ck.mods()['main']._m_rgen.seed(self.seedv)
         try:
             with time_limit(10):
                 try:
-                    if e['dunder']:
-                        call = ops.DUNDER_CALL[name]
-                        if hook == 'rbinop':
-                            comp = call(objs[0], a)
-                        else:
-                            comp = call(a, *objs)
+                    if via_wrapper_hook:
+                        comp = a._compose_binop(e['wrapper'], objs[0])
+                    elif self.src == 'builtin':
+                        comp = e['wrapper'](a, *objs)
+                    elif e['dunder']:
+                        call = ops.DUNDER_CALL[e['name']]
+                        comp = call(objs[0], a) if self.hook == 'rbinop' \
+                            else call(a, *objs)
                     else:
-                        comp = getattr(a, name)(*objs)
-                    got = ck.evaluate(comp, x0)
+                        comp = getattr(a, e['name'])(*objs)
+                    return ck.evaluate(comp, self.x0)
                 except Exception as ex:
-                    got = ('exc', type(ex).__name__)
+                    return ('exc', type(ex).__name__)
         except Timeout:
-            got = ('exc', 'HANG')
-        acc.count('lift_method_evaluations')
-        acc.count(f'receiver_{akind}')
-        for k in okinds:
-            acc.count(f'other_{k}')
-        sig = (name, akind, tuple(okinds), vrepr(nfa), vrepr(nfs), x0)
-        isval = not ck.is_exc(exp)
-        acc.case(h64(sig), nontrivial=isval)
-        if ck.same(exp, got):
-            acc.count('lift_value_agreements' if isval else
-                      'lift_exception_agreements')
-        else:
-            others = [ck.family(k) if not (hook == 'narop' and k in ('cfunc',))
-                      else 'composed-function' for k in okinds]
-            if expand:
-                key = 'C15/lifting/channels/method-narop/list-argument-not-expanded'
-            else:
-                key = lift_key('method', fam, hook, others,
-                               overridden_by(a, name))
-            acc.violation(key, {
-                'case': i, 'method': name, 'selector': getattr(sel, '__name__', '?'),
-                'receiver_kind': akind, 'receiver_value': vrepr(nfa),
-                'other_kinds': okinds, 'other_values': vrepr(nfs), 'x0': x0,
-                'expected': vrepr(exp), 'library': vrepr(got)})
-        if acc.want_sample() and isval and okinds and rng.random() < 0.01:
-            acc.sample({'case': i, 'method': name, 'receiver': akind,
-                        'others': okinds, 'receiver_value': vrepr(nfa),
-                        'other_values': vrepr(nfs), 'evaluates_to': vrepr(got)})
+            return ('exc', 'HANG')
+
+    # -- mechanism key of a mismatch ---------------------------------------------------
+    def classify(self, a, exp):
+        from vf import c15_kinds as ck
+        hook, fam = self.hook, self.fam
+        fams = [ck.family(k) for k in self.okinds]
+
+        def agrees_with(plain):
+            a2, nfa2, objs2, nfs2 = self.build(plain)
+            return ck.same(self.expected(nfa2, nfs2), self.library(a2, objs2))
+
+        if getattr(self.e.get('selector'), '__name__', '') == 'eq' and \
+                (fam == 'operand' or 'operand' in fams):
+            return OPERAND_EQ_KEY
+        if hook == 'narop' and fam == 'function' and 'cfunc' in self.okinds:
+            idx = [j for j, k in enumerate(self.okinds) if k == 'cfunc']
+            if agrees_with(idx):
+                return ('C15/lifting/function/narop/'
+                        'composed-function-argument-not-evaluated')
+        if hook == 'narop' and fam == 'operand' and 'operand' in fams:
+            idx = [j for j, f in enumerate(fams) if f == 'operand']
+            if agrees_with(idx):
+                return ('C15/lifting/operand/narop/'
+                        'operand-argument-not-unwrapped')
+        if hook == 'narop' and self.src == 'method' and self.akind == 'nchan' \
+                and overridden_by(a, self.e['name']):
+            return 'C15/lifting/channels/method-narop/nested-ChannelList'
+        if hook == 'narop' and self.expand:
+            return 'C15/lifting/channels/narop/list-argument-not-expanded'
+        if self.src == 'builtin' and hook == 'binop' and not self.number_left \
+                and fams and fams[0] not in ('number', fam):
+            a2, nfa2, objs2, nfs2 = self.build()
+            if hasattr(a2, '_compose_binop') and ck.same(
+                    self.expected(nfa2, nfs2),
+                    self.library(a2, objs2, via_wrapper_hook=True)):
+                return ('C15/lifting/builtin-binop/'
+                        'undecorated-kernel-meets-other-kind')
+        o = '+'.join(sorted(set(fams))) if fams else 'none'
+        if self.number_left:
+            o, hook = ck.family(self.akind), 'rbinop'
+        k = f'C15/lifting/{fam}/{self.src}-{hook}/with-{o}'
+        ov = overridden_by(a, self.e['name']) if self.src == 'method' else None
+        return k + (f'/{ov}' if ov else '')
 
 
-def run_lift_builtins(spec, acc):
+def run_lift(spec, acc, src):
     from vf import c15_kinds as ck, c15_ops as ops
-    m = ck.mods()
-    entries = ops.builtin_entries()
-    acc.counters['max_builtin_entry_points'] = len(entries)
+    bents = ops.builtin_entries()
+    if src == 'method':
+        entries = ops.method_entries()
+        for e in entries:
+            e['random'] = ops.random_selector(e['selector'], bents)
+        acc.counters['max_method_entry_points'] = len(entries)
+        tag, cnt = 'lift_m', 'lift_method_evaluations'
+    else:
+        entries = bents
+        acc.counters['max_builtin_entry_points'] = len(entries)
+        tag, cnt = 'lift_b', 'lift_builtin_evaluations'
     ne = len(entries)
     for i in iter_cases(spec):
-        rng = case_rng(spec['seed'], 'C15', 'lift_b', i)
+        rng = case_rng(spec['seed'], 'C15', tag, i)
         e = entries[i % ne]
-        name, arity, fn, func = e['name'], e['arity'], e['wrapper'], e['func']
-        acc.count('b_' + name)
+        acc.count(('m_' if src == 'method' else 'b_') + e['name'])
         x0 = rng.choice([-2, 0, 1, 3, 0.5, 2.5])
-        ints = rng.random() < 0.5
-        nsup = e['nreq'] + (rng.randint(0, e['nopt']) if e['nopt'] else 0)
-        number_left = arity == 'binop' and nsup >= 1 and rng.random() < 0.35 \
-            and not e['random']
-        if e['random']:
-            akind = rng.choice(RANDOM_RECEIVERS)
-        elif number_left:
-            akind = rng.choice(ck.NUMBER_KINDS + ck.PLAIN_LIST_KINDS[:1])
-        else:
-            akind = ck.ABSTRACT_KINDS[(i // ne) % len(ck.ABSTRACT_KINDS)] \
-                if rng.random() < 0.7 else rng.choice(ck.ABSTRACT_KINDS)
-        a, nfa = ck.make(akind, rng, x0, ints)
-        okinds, objs, nfs = [], [], []
-        for j in range(nsup):
-            if e['random']:
-                k = rng.choice(ck.NUMBER_KINDS)
-            elif number_left:
-                k = rng.choice(ck.CHAN_KINDS) if akind == 'list' else \
-                    rng.choice(ck.ABSTRACT_KINDS)
-            elif arity == 'binop':
-                k = rng.choice(other_kinds_for(akind, rng))
-            else:
-                k = rng.choice(narop_arg_kinds(akind))
-            o, nf = ck.make(k, rng, x0, ints)
-            okinds.append(k); objs.append(o); nfs.append(nf)
-        sargs = list(nfs) + list(e['opt_defaults'][nsup - e['nreq']:]) \
-            if arity != 'unop' else []
-        seedv = rng.randrange(10 ** 9)
-        m['main']._m_rgen.seed(seedv)
-        if arity == 'unop':
-            exp = ck.ap1(func, nfa)
-        elif arity == 'binop':
-            exp = ck.ap2(func, nfa, sargs[0])
-        else:
-            exp = ck.apn(func, nfa, sargs)
-        exp = ck.collapse(exp)
-        m['main']._m_rgen.seed(seedv)
-        try:
-            with time_limit(10):
-                try:
-                    comp = fn(a, *objs)
-                    got = ck.evaluate(comp, x0)
-                except Exception as ex:
-                    got = ('exc', type(ex).__name__)
-        except Timeout:
-            got = ('exc', 'HANG')
-        acc.count('lift_builtin_evaluations')
-        if number_left:
+        lc = LiftCase(src, e, i, rng, x0, rng.random() < 0.5)
+        ck.CALL_BY_KEYWORD[0] = rng.random() < 0.3
+        if ck.CALL_BY_KEYWORD[0]:
+            acc.count('functions_called_by_keyword')
+        lc.choose(i // ne)
+        a, nfa, objs, nfs = lc.build()
+        exp = lc.expected(nfa, nfs)
+        got = lc.library(a, objs)
+        acc.count(cnt)
+        if lc.number_left:
             acc.count('builtin_number_on_the_left')
-        acc.count(f'receiver_{akind}')
-        for k in okinds:
+        if lc.hook == 'rbinop':
+            acc.count('method_number_on_the_left')
+        acc.count(f'receiver_{lc.akind}')
+        for k in lc.okinds:
             acc.count(f'other_{k}')
-        sig = (name, akind, tuple(okinds), vrepr(nfa), vrepr(nfs), x0)
+        sig = (e['name'], lc.akind, tuple(lc.okinds), vrepr(nfa), vrepr(nfs), x0)
         isval = not ck.is_exc(exp)
         acc.case(h64(sig), nontrivial=isval)
         if ck.same(exp, got):
             acc.count('lift_value_agreements' if isval else
                       'lift_exception_agreements')
         else:
-            if number_left:
-                fam, hook = ck.family(okinds[0]), 'rbinop'
-                others = [ck.family(akind)]
-            else:
-                fam, hook = ck.family(akind), arity
-                others = [ck.family(k) if not (arity == 'narop' and k == 'cfunc')
-                          else 'composed-function' for k in okinds]
-            acc.violation(lift_key('builtin', fam, hook, others), {
-                'case': i, 'builtin': name, 'receiver_kind': akind,
-                'receiver_value': vrepr(nfa), 'other_kinds': okinds,
-                'other_values': vrepr(nfs), 'x0': x0, 'expected': vrepr(exp),
-                'library': vrepr(got)})
-        if acc.want_sample() and isval and okinds and rng.random() < 0.01:
-            acc.sample({'case': i, 'builtin': name, 'receiver': akind,
-                        'others': okinds, 'receiver_value': vrepr(nfa),
+            key = lc.classify(a, exp)
+            acc.violation(key, {
+                'case': i, src: e['name'], 'hook': lc.hook,
+                'receiver_kind': lc.akind, 'receiver_value': vrepr(nfa),
+                'other_kinds': lc.okinds, 'other_values': vrepr(nfs), 'x0': x0,
+                'number_on_the_left': lc.number_left or lc.hook == 'rbinop',
+                'expected': vrepr(exp), 'library': vrepr(got)})
+        if acc.want_sample() and isval and lc.okinds and rng.random() < 0.01:
+            acc.sample({'case': i, src: e['name'], 'receiver': lc.akind,
+                        'others': lc.okinds, 'receiver_value': vrepr(nfa),
                         'other_values': vrepr(nfs), 'evaluates_to': vrepr(got)})
 
 
@@ -420,6 +430,25 @@ def run_meta(spec, acc):
                 acc.violation(f'C15/reflected-form-missing/{n}',
                               {'case': 0, 'method': n, 'reflected': r,
                                'found': bool(ent)})
+    # 2b. == on operands whose value and the other side are int / float: the
+    # composed comparison must evaluate like the plain one (deterministic
+    # companion of the random lifting cases, which hit equal int/float pairs
+    # rarely)
+    from sc3.base.operand import Operand
+    from sc3.seq.event import Rest
+    for a, b in ((Operand(3), 3.0), (Operand(3.0), 3), (Rest(2), 2.0),
+                 (Operand(3), Operand(3.0)), (3.0, Operand(3)),
+                 (Operand(3), 3), (Operand(2.5), 2.5), (Operand(3), 4.0)):
+        acc.count('meta_checks')
+        acc.count('meta_operand_eq_checked')
+        va = a.value if isinstance(a, Operand) else a
+        vb = b.value if isinstance(b, Operand) else b
+        r = a == b
+        r = r.value if isinstance(r, Operand) else r
+        if r is NotImplemented or bool(r) != (va == vb):
+            acc.violation(OPERAND_EQ_KEY, {'case': 0, 'left': repr(a),
+                                           'right': repr(b), 'result': repr(r),
+                                           'expected': va == vb})
     # 3. operator methods hidden by instance attributes of subclasses
     public = {n for n in names if not n.startswith('_')}
 
@@ -484,9 +513,9 @@ def run_meta(spec, acc):
 def run_shard(spec, acc):
     kind = spec['shard']['kind']
     if kind == 'lift_m':
-        run_lift_methods(spec, acc)
+        run_lift(spec, acc, 'method')
     elif kind == 'lift_b':
-        run_lift_builtins(spec, acc)
+        run_lift(spec, acc, 'builtin')
     elif kind == 'laws':
         run_laws(spec, acc)
     else:
